@@ -1,6 +1,6 @@
 (* C12 — consumer group: the shutdown terminates (repaired tree). *)
 From Coq Require Import List Arith Bool Lia.
-From SV Require Import C12.Lts C12.LtsProofs C12.Tac C12.ConnProofs C12.Group C12.GroupProofs C12.GroupSafety C12.GroupTerm C12.GroupTermA C12.GroupTermB.
+From SV Require Import C12.Lts C12.LtsProofs C12.Tac C12.ConnProofs C12.Group C12.GroupProofs C12.GroupSafety C12.GroupTerm C12.GroupTerm_01 C12.GroupTerm_02 C12.GroupTerm_03.
 Import ListNotations.
 
 Module GrpTT.
